@@ -38,6 +38,11 @@ pub fn find(id: &str) -> Option<PropDef> {
     all().into_iter().find(|d| d.id == id)
 }
 pub fn lookup_case(prop: &str, sub: &str) -> Option<Box<CaseFn<'static>>> {
+    // `<sub>-fresh-thread` is `<sub>` with every case run in a thread of its own
+    if let Some(base) = sub.strip_suffix("-fresh-thread") {
+        let inner = find(prop).and_then(|d| (d.case)(base))?;
+        return Some(Box::new(move |s: &mut crate::engine::Src, c: &mut crate::engine::Ctx| crate::engine::in_fresh_thread(&*inner)(s, c)));
+    }
     find(prop).and_then(|d| (d.case)(sub))
 }
 
